@@ -16,6 +16,8 @@ EV = "des/src/net/runtime/events.rs"
 CTX = "des/src/net/runtime/ctx.rs"
 UW = "des/src/net/runtime/unwind.rs"
 YM = "des-net-utils/src/props/yaml.rs"
+ND = "des-net-utils/src/ndl/def.rs"
+NM = "des-net-utils/src/ndl/mod.rs"
 
 # (id, property, file, regex, replacement, expectation)   expectation: "kill" (exit 1 expected) | "keep" (exit 0 expected)
 PACK = [
@@ -66,6 +68,11 @@ PACK = [
     ("cfg-first-prefix-only", "C17", YM, r"(                self\.update_from\(entry, &path\[\(i \+ 1\)\.\.\]\);\n)", r"\1                break;\n", "kill"),
     ("eq-cfg-len-and-dot", "C17", YM, r"k\.starts_with\(&key\) && k\[key\.len\(\)\.\.\]\.starts_with\('\.'\)", "k.starts_with(&key) && k.len() > key.len() && k[key.len()..].starts_with('.')", "keep"),
     ("eq-cfg-if-not-any", "C17", YM, r"                    if k\.contains\(ANY\) \{\n                        continue;\n                    \}\n                    self\.set\(k\.clone\(\), v\.clone\(\)\);\n", "                    if !k.contains(ANY) {\n                        self.set(k.clone(), v.clone());\n                    }\n", "keep"),
+    ("ndl-paren-assert", "C18", ND, r"        if !rem\.ends_with\('\)'\) \{\n            return Err\(format!\(\"invalid type clause '\{s\}': missing closing parenthesis\"\)\);\n        \}\n", "        assert!(rem.ends_with(')'));\n", "kill"),
+    ("ndl-generic-arg-assert", "C18", NM, r"            if !replacement_deps\.is_empty\(\) \{\n                return Err\(\n                    ErrorKind::InvalidTypStatement\(typ\.clone\(\), replacement_deps\.clone\(\)\)\.into\(\),\n                \);\n            \}\n", "            assert!(replacement_deps.is_empty());\n", "kill"),
+    ("ndl-bracket-unwrap", "C18", ND, r"\.ok_or\(\"invalid syntax: expected opening bracket\"\)\?;", ".expect(\"opening bracket\");", "kill"),
+    ("ndl-cluster-size-unwrap", "C18", ND, r"cluster\.parse::<usize>\(\)\.map_err\(\|e\| e\.to_string\(\)\)\?", "cluster.parse::<usize>().unwrap()", "kill"),
+    ("eq-ndl-trim-first", "C18", ND, r"(        if !rem\.ends_with\('\)'\) \{\n            return Err\(format!\(\"invalid type clause '\{s\}': missing closing parenthesis\"\)\);\n        \}\n)(        let rem = rem\.trim_end_matches\('\)'\);\n)", r"\1\n\2", "keep"),
     ("tp-any-ne", "C19", TP, r"\.any\(\|edge\| edge\.dst == src\)", ".any(|edge| edge.dst != src)", "kill"),
     ("tp-visit-self", "C19", TP, r"visit\(topo, edge\.dst, visited\);", "visit(topo, i, visited);", "kill"),
     ("tp-skip-node0", "C19", TP, r"for start in 0\.\.self\.nodes\.len\(\) \{", "for start in 1..self.nodes.len() {", "kill"),
@@ -96,7 +103,7 @@ PACK = [
     ("eq-take-msg", "C14", PR, r"if let Some\(existing_msg\) = msg \{", "if let Some(existing_msg) = msg.take() {", "keep"),
 ]
 
-FILES = [CQ, RT, LIM, ES, PR, CH, BLD, MT, TP, YM, "des/src/net/path.rs", "des/src/net/message/mod.rs", "des/src/net/message/header.rs", "des/src/net/message/body.rs", "des/src/time/mod.rs",
+FILES = [CQ, RT, LIM, ES, PR, CH, BLD, MT, TP, YM, ND, NM, "des/src/net/path.rs", "des/src/net/message/mod.rs", "des/src/net/message/header.rs", "des/src/net/message/body.rs", "des/src/time/mod.rs",
          "des/src/time/duration.rs", "des/src/macros/cfg.rs", "des/src/runtime/bench.rs", "des/src/runtime/event/types.rs", "des-cqueue/src/stable/linked_list.rs",
          "des-cqueue/src/stable/alloc.rs", "des-cqueue/src/stable/boxed.rs", "des-cqueue/Cargo.toml", "des-cqueue/src/lib.rs"]
 
